@@ -3,7 +3,18 @@ CFG = dict(
     prop_file='Properties/C15.v',
     coq_extra=['DataModel/Run.v'],
     harness='c15',
-    trusted=[],
-    assumptions=[],
+    trusted=[
+        'the projection of *sysl.Module into the model input (harness): names as lists of \'.\'-free chunks (what strings.Split(s, ".") returns), application names as single chunks, entities and fields presented in sort.Strings order (the model does not sort them; every theorem holds for any order)',
+        'the PlantUML reader of the harness (class / field / relationship lines back into items); enum item lines, title and header are skipped',
+        'the parser (pkg/parse) is used to build modules and is not part of this model; DmShape translator: classifies the UniqueVarForAppName arguments, the Count expressions and the per-kind dispatch of datamodelview.go',
+    ],
+    assumptions=[
+        'application names contain no "." (true of parser output unless %2E escapes are used; not generated)',
+        'a reference "refers to" the type App.Path where App is the application named in the reference or else the referring type\'s own application; for a table column reference Table.column the last path element is the column',
+    ],
 )
-TEXT = dict(level='wip', note='wip', technique='Coq proof over a transliterated model + regenerated shape table + correspondence')
+TEXT = dict(
+    level='Theorems in Coq over a statement-by-statement model of datamodelview.go (UniqueVarForAppName, getNames, DrawRelation, DrawPrimitive, DrawTuple, DrawEnum header, DrawRelationship, GenerateDataView) parameterised by a shape table regenerated from the source on every run (how each Draw* function builds its alias key, the Count expressions, target check, dispatch order). Proved for all modules, both views, unbounded size: (blocks) the diagram is exactly, for every covered table / tuple / primitive alias / enum in order, its class header, one line per field, the closing brace, then relationship lines only; (classes, partial) tables, tuples and enums with different App.Type names get different aliases; (edges, partial) between any two allocated symbols the number of relationship lines equals the number of fields whose reference the code resolves to that pair - a second reference is a second line, nothing extra - and that resolution is the plain one for one-element paths. Proved false of the current code, with witnesses: two primitive aliases of one short name share an alias; a reference to a primitive alias ends at an alias that declares no class; a nested-name reference (A.B) to a declared type gets no line; a collection-typed table column is listed as no_primitive. The model is tied to the code by compiling generated Sysl text with the real parser, drawing it with the real GenerateDataModels (whole-model view via --direct, per-application view via a project) and comparing the parsed PlantUML item by item with the model inside Coq; an independent Go census of the compiled type graph judges the property itself.',
+    note='Trusted: Coq kernel + vm_compute; the DmShape translator; the harness projection (names as chunk lists, sort.Strings order supplied by the harness) and its PlantUML reader. Partial: edge exactness is stated relative to the code\'s own reference resolution (tuple_parts / rel_parts) with a lemma that it is the plain resolution for one-element paths; field labels of tuples are characterised by lemmas (ref_label_names_path), not by one closed statement. Not modelled: enum item lines, cardinality labels beyond transliteration (not part of the property), title/header, application names containing ".", in-place (anonymous) tuple fields, reference columns without a column part (DrawRelation indexes Path[1]: crash site of C20). Known findings (primitive-alias aliases, nested-name references, collection columns of tables) are reported by the oracle under narrow keys and reproduced by the model.',
+    technique='Coq proof over a transliterated model + regenerated shape table + differential correspondence through the real parser and diagram generator',
+)
